@@ -62,6 +62,23 @@ def check_state(s):
                 out.append('getPositionByType(tag %d) wrong' % c['tag'])
         if sorted(ts[-1].tagId for ts in nts.tagMapUnique.presentTypes) != sorted(c['tag'] for c in cs):
             out.append('tagMapUnique keys differ')
+        # addressing by name and by position (the names are f0, f1, ... in declaration order)
+        if len(nts) != n or list(nts) != ['f%d' % i for i in range(n)] or sorted(nts.keys()) != ['f%d' % i for i in range(n)] or \
+                [nt.name for nt in nts.namedTypes] != ['f%d' % i for i in range(n)]:
+            out.append('iteration does not follow the declaration order / keys() is not the set of names')
+        for i in range(n):
+            if nts.getPositionByName('f%d' % i) != i or nts.getNameByPosition(i) != 'f%d' % i or ('f%d' % i) not in nts:
+                out.append('name <-> position maps wrong at %d' % i)
+            if nts.getTypeByPosition(i).tagSet != tagset(cs[i]['tag']):
+                out.append('getTypeByPosition(%d) has other tags' % i)
+        for bad in ('nope', 'f%d' % n):
+            try:
+                nts.getPositionByName(bad)
+                out.append('getPositionByName(%r) answered' % bad)
+            except error.PyAsn1Error:
+                pass
+            if bad in nts:
+                out.append('%r reported as a member' % bad)
         if nts.minTagSet[-1].tagId != want['mintag']:
             out.append('minTagSet %s, model %s' % (nts.minTagSet, want['mintag']))
     except Exception as e:   # noqa
